@@ -51,6 +51,31 @@ type c01tPub struct {
 	video map[uint32][]byte // id -> RTP packet bytes as sent (video channel)
 	audio map[uint32][]byte
 	nals  map[uint32][]byte // id -> NAL unit
+	rtcp  map[uint32][]byte // id -> RTCP packet bytes as sent (video control channel)
+}
+
+// c01RTCP builds a 28-byte sender report whose packet-count field carries the id.
+func c01RTCP(id uint32) []byte {
+	b := make([]byte, 28)
+	b[0], b[1], b[3] = 0x80, 200, 6
+	binary.BigEndian.PutUint32(b[4:], 0x5151)
+	binary.BigEndian.PutUint32(b[8:], 0x83aa7e80+1000+id) // NTP seconds
+	binary.BigEndian.PutUint32(b[16:], id*3000)           // RTP timestamp
+	binary.BigEndian.PutUint32(b[20:], id)                // sender's packet count = id
+	binary.BigEndian.PutUint32(b[24:], 0xC0DEC0DE)
+	return b
+}
+
+// checkRTCP verifies a received control packet against what was published.
+func (p *c01tPub) checkRTCP(d []byte) bool {
+	if len(d) != 28 || d[1] != 200 {
+		return false
+	}
+	id := binary.BigEndian.Uint32(d[20:])
+	p.mu.Lock()
+	want, ok := p.rtcp[id]
+	p.mu.Unlock()
+	return ok && bytes.Equal(want, d)
 }
 
 // checkRTP verifies a received RTP packet against what was published; returns the id.
@@ -97,7 +122,8 @@ func c01RunTransports(c *kit.Ctx) {
 			return
 		}
 		waitUntil(func() bool { return media.Get(path) != nil }, 5*time.Second)
-		pub := &c01tPub{video: map[uint32][]byte{}, audio: map[uint32][]byte{}, nals: map[uint32][]byte{}}
+		pub := &c01tPub{video: map[uint32][]byte{}, audio: map[uint32][]byte{}, nals: map[uint32][]byte{}, rtcp: map[uint32][]byte{}}
+		var ctlTCP, ctlUDP, ctlPublished int64     // control packets received intact on rtsp-tcp / rtsp-udp, and published
 		n := 400 + c.SubRng("c01t", run).Intn(300) // video+audio+filler stay below the 1000-packet backlog limit
 		sentinel := uint32(n + 1)
 		var stop int32
@@ -150,7 +176,13 @@ func c01RunTransports(c *kit.Ctx) {
 					}
 				case 6:
 					pub.checkRTP(r, it.Frame.Data, true)
-				case 5, 7:
+				case 5:
+					if pub.checkRTCP(it.Frame.Data) {
+						atomic.AddInt64(&ctlTCP, 1)
+					} else {
+						r.fail("control-channel packet differs from what was published")
+					}
+				case 7:
 				default:
 					r.fail(fmt.Sprintf("frame on channel %d, negotiated 4-7", it.Frame.Channel))
 				}
@@ -243,7 +275,18 @@ func c01RunTransports(c *kit.Ctx) {
 		// ---- RTSP over UDP
 		start("rtsp-udp", false, func(r *c01tRec) {
 			vs, err1 := net.ListenUDP("udp", &net.UDPAddr{IP: net.IPv4(127, 0, 0, 1)})
-			vc, err2 := net.ListenUDP("udp", &net.UDPAddr{IP: net.IPv4(127, 0, 0, 1)})
+			// the RTCP socket: any port the client likes - in even runs one BELOW the RTP port (players that bind two
+			// unrelated ephemeral sockets negotiate such pairs), otherwise wherever the system puts it
+			var vc *net.UDPConn
+			var err2 error
+			if err1 == nil && run%2 == 0 {
+				for d := 1; d <= 20 && vc == nil; d++ {
+					vc, _ = net.ListenUDP("udp", &net.UDPAddr{IP: net.IPv4(127, 0, 0, 1), Port: vs.LocalAddr().(*net.UDPAddr).Port - d})
+				}
+			}
+			if vc == nil {
+				vc, err2 = net.ListenUDP("udp", &net.UDPAddr{IP: net.IPv4(127, 0, 0, 1)})
+			}
 			if err1 != nil || err2 != nil {
 				r.fail("udp listen")
 				ready <- r.name
@@ -277,6 +320,17 @@ func c01RunTransports(c *kit.Ctx) {
 				ready <- r.name
 				return
 			}
+			c.SetAdd("udp_client_port_pairs", map[bool]string{true: "rtcp-port-below-rtp-port", false: "rtcp-port-above-rtp-port"}[p2 < p1])
+			go func() { // the negotiated RTCP port
+				cb := make([]byte, 2048)
+				for atomic.LoadInt32(&stop) == 0 {
+					vc.SetReadDeadline(time.Now().Add(500 * time.Millisecond))
+					k, _, err := vc.ReadFromUDP(cb)
+					if err == nil && pub.checkRTCP(cb[:k]) {
+						atomic.AddInt64(&ctlUDP, 1)
+					}
+				}
+			}()
 			ready <- r.name
 			buf := make([]byte, 70000)
 			for atomic.LoadInt32(&stop) == 0 {
@@ -429,7 +483,7 @@ func c01RunTransports(c *kit.Ctx) {
 			flvConsume(r, resp.Body)
 		})
 		start("ws-flv", true, func(r *c01tRec) {
-			d := websocket.Dialer{HandshakeTimeout: 5 * time.Second}
+			d := websocket.Dialer{HandshakeTimeout: 60 * time.Second}
 			ws, _, err := d.Dial("ws://"+srv.Addr+"/streams"+path+".flv", nil)
 			if err != nil {
 				r.fail("ws dial")
@@ -482,6 +536,15 @@ func c01RunTransports(c *kit.Ctx) {
 			if pubc.WriteFrame(0, pk.Data) != nil {
 				break
 			}
+			if i%10 == 5 { // a sender report on the video control channel
+				rp := c01RTCP(id)
+				pub.mu.Lock()
+				pub.rtcp[id] = rp
+				pub.mu.Unlock()
+				if pubc.WriteFrame(1, rp) == nil {
+					atomic.AddInt64(&ctlPublished, 1)
+				}
+			}
 			if i%4 == 0 {
 				ap := kit.MakeRTP(kit.ChAudio, 97, true, uint16(i), id, 0x5152, kit.AACHbr([][]byte{kit.AACAU(30, uint64(id))}))
 				pub.mu.Lock()
@@ -529,6 +592,21 @@ func c01RunTransports(c *kit.Ctx) {
 		pubc.Close()
 		wg.Wait()
 		// ---- judge
+		c.Count("control_packets_published", atomic.LoadInt64(&ctlPublished))
+		c.Count("control_packets_received_rtsp-tcp", atomic.LoadInt64(&ctlTCP))
+		c.Count("control_packets_received_rtsp-udp", atomic.LoadInt64(&ctlUDP))
+		for _, r := range recs {
+			if (r.name == "rtsp-tcp" || r.name == "rtsp-udp") && r.bad == "" && len(r.ids) > 0 && atomic.LoadInt64(&ctlPublished) > 10 {
+				got := atomic.LoadInt64(&ctlTCP)
+				if r.name == "rtsp-udp" {
+					got = atomic.LoadInt64(&ctlUDP)
+				}
+				if got == 0 || (r.name == "rtsp-tcp" && got < atomic.LoadInt64(&ctlPublished)-2) {
+					c.Violation("C01:transport:control-channel-packets-not-delivered-to-negotiated-destination:"+r.name,
+						map[string]interface{}{"transport": r.name, "published": atomic.LoadInt64(&ctlPublished), "received": got})
+				}
+			}
+		}
 		for _, r := range recs {
 			c.Eval(1)
 			c.Distinct("transport/" + r.name)
